@@ -15,7 +15,7 @@ LEVEL = "proof"
 
 MANIFEST = {
     "technique": 'Coq proof (LostCode characterisation, path algebra, unreadable files) + differential correspondence',
-    "text": 'Theorems C03_lost_complete_and_only_lost / C03_lost_location / C03_unreadable_untouched over the model of the repaired code.',
+    "text": 'Theorems C03_lost_complete_and_only_lost / C03_lost_location / C03_nothing_lost_no_lostfile / C03_unreadable_untouched / C03_undecodable_untouched over the model of the repaired code.',
     "note": PRES_NOTE + ' Text-mode decodability is decided by the harness (strict UTF-8) and passed to the model as Unreadable.',
 }
 RULE = ("(a) synthetic code models through the real preserve_usercode_in_files+createoutput with the output directory spelled "
